@@ -93,6 +93,23 @@ pub fn opening_pairs(case: &Case) -> Vec<Value> {
         if let (Some(a), Some(b)) = (seg_for(&sa, sec), seg_for(&sb, sec)) {
             out.push(json!({"id": case.id, "kind": "opening", "cls": "opening", "a": a, "b": b, "k": 0, "post": dzero(), "pre": dzero(), "perAff": false}));
         }
+        // the same pair for a security whose name is not all upper case (the opening position must find it)
+        let low = format!("{}{}.b", &sec[..1].to_uppercase(), sec[1..].to_lowercase());
+        let rename = |c: &Case| -> Case {
+            let mut d = c.clone();
+            for f in d.files.iter_mut() {
+                for r in f.iter_mut() {
+                    r.sec = low.clone();
+                }
+            }
+            d.opening = c.opening.iter().map(|(_, v)| (low.clone(), v.clone())).collect();
+            d.id = format!("{}~lc", c.id);
+            d
+        };
+        let (la, lb) = (ledger_segments(&rename(&a_case)), ledger_segments(&rename(&b_case)));
+        if let (Some(a), Some(b)) = (seg_for(&la, &low), seg_for(&lb, &low)) {
+            out.push(json!({"id": case.id, "kind": "opening", "cls": "opening", "a": a, "b": b, "k": 0, "post": dzero(), "pre": dzero(), "perAff": false}));
+        }
         // an opening position of another security must change nothing
         let mut c_case = a_case.clone();
         c_case.id = format!("{}/c", case.id);
